@@ -88,6 +88,7 @@ static bool nontrivial(const std::string &prop, const Report &r)
 	if (prop == "C14") return has(r, "error-reports-sent");
 	if (prop == "C17") return has(r, "eod-with-out-of-range-or-boundary-interval") || has(r, "serial-notify-in-established") || has(r, "refresh-interval-expired-in-established");
 	if (prop == "C06") return has(r, "reload-swapped-prefix-table-in-one-step") || has(r, "reload-swapped-router-key-table-in-one-step");
+	if (prop == "C18") return num(r, "allocation-failures-that-hit-the-library") > 0;
 	if (prop == "C09" || prop == "C10") return has(r, "failed-after-partial-application(undo-path)") || has(r, "reload-completed(data-present-before)") || has(r, "open-after-expiry");
 	return false;
 }
@@ -99,9 +100,61 @@ int main(int argc, char **argv)
 	Options opt;
 	opt.trace = true;
 	opt.battery = args.prop == "C06" || args.prop == "C04";
+	std::string mode = args.kv.count("mode") ? args.kv["mode"] : "plain";
+	// metamorphic partners: the same script under another read/write chunking (C04) or another stack/heap dirtying pattern (C14)
+	auto run_script = [&](const Script &sc) -> Report {
+		Report r = run(sc, opt);
+		if (!r.ok || mode == "plain") return r;
+		Options o2 = opt;
+		if (mode == "chunk") o2.whole_chunks = true;
+		if (mode == "dirty") o2.dirty_override = sc.dirty ? 0 : 1;
+		Report r2 = run(sc, o2);
+		if (mode == "chunk" && r.digest != r2.digest) {
+			r.ok = false; r.prop = "C04"; r.sig = "C04:outcome-depends-on-chunking";
+			r.what = "the same conversation ends differently when the transport delivers/accepts the bytes in other chunk sizes: scripted chunking -> " + r.digest.substr(0, 300) + " ; largest chunks -> " + r2.digest.substr(0, 300);
+		}
+		if (mode == "dirty" && r.sent_hex != r2.sent_hex) {
+			size_t i = 0;
+			while (i < r.sent_hex.size() && i < r2.sent_hex.size() && r.sent_hex[i] == r2.sent_hex[i]) i++;
+			r.ok = false; r.prop = "C14"; r.sig = "C14:sent-bytes-depend-on-uninitialised-memory";
+			r.what = "the bytes handed to the transport differ when stack and heap are pre-filled with 0x00 instead of 0xFF (first difference at hex offset " + std::to_string(i) + ": ..." + r.sent_hex.substr(i > 40 ? i - 40 : 0, 80) + "... vs ..." + r2.sent_hex.substr(i > 40 ? i - 40 : 0, 80) + "...)";
+		}
+		r.cls["metamorphic-pairs-compared"]++;
+		return r;
+	};
+	// C18 (b): every allocation made during the conversation is failed in turn
+	vf::Stats *stp = nullptr;
+	auto run_alloc = [&](const Script &sc) -> Report {
+		Report r0 = run(sc, opt);
+		if (!r0.ok) return r0;
+		bool clean_end = r0.converged && r0.cls.count("stop-start-cycles") == 0 && !r0.weak;
+		if (clean_end && (r0.leaked || r0.foreign_free)) {
+			r0.ok = false; r0.prop = "C18"; r0.sig = r0.leaked ? "C18:conv-blocks-not-returned-to-allocator" : "C18:conv-foreign-block-freed";
+			r0.what = "failure-free conversation: " + std::to_string(r0.leaked) + " block(s) of the configured allocator still allocated after the tables were freed, " + std::to_string(r0.foreign_free) + " unknown block(s) passed to its free";
+			return r0;
+		}
+		long N = r0.allocs, stride = N > 400 ? N / 400 + 1 : 1;
+		r0.cls["conversations-enumerated-for-allocation-failures"]++;
+		for (long k = 1; k <= N; k += stride) {
+			if (stp) stp->current_case(to_text(sc) + "# failing allocation k=" + std::to_string(k) + " of " + std::to_string(N) + "\n");
+			Options o2 = opt;
+			o2.fail_alloc = k;
+			Report rk = run(sc, o2);
+			r0.cls["allocation-failures-injected"]++;
+			if (rk.alloc_failed_hit) r0.cls["allocation-failures-that-hit-the-library"]++;
+			if (!rk.ok) {
+				rk.what = "with allocation #" + std::to_string(k) + " of " + std::to_string(N) + " failing: " + rk.what;
+				if (rk.prop != "C18") { rk.sig = "C18:after-allocation-failure(" + rk.sig + ")"; rk.prop = "C18"; }
+				rk.cls = r0.cls;
+				return rk;
+			}
+		}
+		return r0;
+	};
+	auto run_any = [&](const Script &sc) -> Report { return mode == "alloc" ? run_alloc(sc) : run_script(sc); };
 	auto run_text = [&](const std::string &body) {
 		Script sc = from_text(body);
-		Report r = run(sc, opt);
+		Report r = run_any(sc);
 		if (!r.ok) fprintf(stderr, "%s", r.trace.c_str());
 		if (!r.ok && r.prop != args.prop) {
 			printf("note: conversation fails for %s (%s), not for %s\n", r.prop.c_str(), r.sig.c_str(), args.prop.c_str());
@@ -111,13 +164,14 @@ int main(int argc, char **argv)
 	};
 	if (!args.replay.empty()) return vf::replay_main(args, run_text);
 	vf::Stats st(args);
+	stp = &st;
 	double t0 = vf::now_s();
 	std::string focus = args.prop;
 	rc::check("conversation (" + args.prop + ")", [&]() {
 		Script sc = *genScript(focus);
 		std::string text = to_text(sc);
 		st.current_case(text);
-		Report r = run(sc, opt);
+		Report r = run_any(sc);
 		st.evaluations++;
 		if (!r.ok && r.prop != args.prop) { st.cls("conversation-cut-short-by-a-failure-of-another-property(" + r.prop + ")"); return; }
 		for (auto &kv : r.cls) st.cls(kv.first, kv.second);
